@@ -169,14 +169,14 @@ def count_theorems(prop):
 
 
 def standard(prop, tier, seed, cases, classify, direct=None, known_match=None, extra_cov=None,
-             trusted=None, checker_note="", spec_codes=(11, 12, 13, 14)):
+             trusted=None, checker_note="", spec_codes=(11, 12, 13, 14), extra_targets=()):
     """cases: list of dict(src, ext, family, label).
     classify(run, i, model) -> None | (tag, payload): does disagreement i exhibit a failure of THIS property?
     direct(run, chk): property oracles evaluated directly on the real outputs (may call chk.violation / chk.known)
     known_match(payload) -> known-finding entry or None."""
     chk = common.Check(prop, tier, seed)
     known = common.load_known(prop)
-    res = build_for(prop)
+    res = build_for(prop, extra_targets)
     closed, axioms = common.parse_assumptions(res.log)
     bad_axioms = common.axioms_ok(axioms)
     hyg = common.hygiene()
